@@ -201,7 +201,7 @@ class extract_visitor(NodeVisitor):
         self.flow = self.make_flow('join', [orelse] + handlers)
         self.flow.scope.flow = self.flow
         if hasattr(node, 'finalbody'):
-            self.visit_in_flow(node.finalbody, self.flow)
+            self.flow = self.visit_in_flow(node.finalbody, self.flow)
 
     visit_Try = visit_TryExcept
 
